@@ -178,3 +178,44 @@ add("C16", "exploration", "property-based testing (Hypothesis): pairs of instant
     "and follow producer fuzzy hashes. One open known finding (directory contents) is excluded by signature.",
     "Files produced by components are written by the harness; the contrived separator-less serialisation collision is "
     "outside the generated domain.", "DESIGN.md section 3, C16")
+
+add("C07", "exploration", "property-based testing (Hypothesis): generated packages and store/load histories on real "
+    "instances; round-trip oracle between the writing experiment and the reloaded one",
+    "Packages built on the shared workflow generator and extended with platforms, layered variables, blueprints, "
+    "overrides, user variable files and optional DoWhile documents are instantiated; histories of loop iterations and 1-3 "
+    "store_unreplicated_flowir_to_disk / experimentFromInstance cycles are replayed; writer and reloaded experiment must "
+    "agree on node set, edges, parsed references and configurationForNode(raw=False) per node (value and type), on the "
+    "DoWhile state, and the stored description must not change after a second store.",
+    "Reloaded for the creation platform; run-time setOptionForNode patches are outside the domain (by design not part of "
+    "the stored description); stale condition edges of earlier loop iterations and reference spelling are not compared.",
+    "DESIGN.md section 3, C07")
+add("C10", "exploration", "property-based testing (Hypothesis): token-list argument strings over confusable producer "
+    "names on real instances; expected string built from the token list; metamorphic relation over declaration order",
+    "Real Experiment instances with 2-5 producers whose names are prefixes/suffixes/substrings of each other or equal "
+    "across stages; argument strings are token lists of literals and ref/output references (both spellings, file paths, "
+    "direct references, realistic separators); each string is given to 2-3 consumers differing only in declaration order "
+    "and spelling. resolveArguments() must equal the concatenation of the literals and each reference's own value (path, "
+    "or file text for :output) for every order, and checkDataReferences() must not report unused/undeclared references.",
+    "loopref/loopoutput, replication and %(var)s / [n] interpolation in arguments are not generated; names starting with "
+    "'stage<N>.' are excluded (C09's domain).", "DESIGN.md section 3, C10")
+add("C11", "exploration", "property-based testing (Hypothesis): valid generated documents must load and be structurally "
+    "sound on three load routes; exactly-one-fault mutants of them must be rejected with the invalid-configuration error",
+    "Documents from the shared workflow generator extended with platforms, typed options (43-entry table) placed in "
+    "components/overrides/blueprints, layered variables and environments are loaded through graphFromFlowIR, "
+    "configurationForExperiment and packageFromLocation+experimentFromPackage: what loads must be acyclic, have unique "
+    "ids, only resolvable references and resolvable configurations. Single faults (dangling reference, cycle, duplicate "
+    "id incl. replica names, unknown key at any depth, mistyped option, undefined variable), applied only at positions "
+    "the valid twin uses, must be rejected on every route with ExperimentInvalidConfigurationError (memory route: also the "
+    "FlowIRException family) - acceptance, another exception type or a hang (60 s guard) is a violation.",
+    "A valid twin that does not load is reported as a harness error (the statement is an implication); wrong values are "
+    "non-convertible ones.", "DESIGN.md section 3, C11")
+add("C15", "exploration", "property-based testing (Hypothesis) with a cross-process differential: batches of generated "
+    "packages loaded by child interpreters with different PYTHONHASHSEED, key-permuted equal documents and permuted "
+    "directory listings; canonical dumps compared, plus a model for variable-file layering",
+    "The parent writes a batch of generated FlowIR and DSL packages (>=2 user variable files with overlapping keys, "
+    "manifests, environments, duplicate DSL step names); child interpreters started with different hash seeds load "
+    "independently key-permuted renderings under a permuted os.listdir/scandir and dump component names, edges, "
+    "environments, resolved configurations and memoization hashes canonically; all dumps must be identical and a key "
+    "defined in two variable files must take the last file's value (checked against the model, not only across runs).",
+    "A commit to /repo while a batch is being compared is detected and reported as a harness error, not a violation.",
+    "DESIGN.md section 3, C15")
